@@ -18,9 +18,22 @@ def fa_scenario(rng, tier, jfa=None, sessions=None):
     Dd = rng.uniform(0.3, 1.5, size=C * D)
     if rng.random() < 0.35:
         Dd = Dd * rng.choice([-1.0, 1.0], size=C * D)  # D enters only as D z with z ~ N(0, 1): the sign of an entry is free (and EM keeps it)
+    if rng.random() < 0.2:
+        Dd[int(rng.integers(0, C * D))] = 0.0
+    int_sub = bool(rng.random() < 0.15)
+    if int_sub:  # loading matrices and offsets typed in by hand: whole numbers, in integer-typed arrays (the setters take any array-like)
+        U, V = np.rint(U * 2.0), np.rint(V * 2.0)
+        U[0] = np.where(U[0] == 0, 1.0, U[0])
+        if V.size:
+            V[0] = np.where(V[0] == 0, 1.0, V[0])
+        Dd = np.where(np.rint(Dd * 2.0) == 0, 1.0, np.rint(Dd * 2.0))
     ns = int(rng.integers(1, 6)) if sessions is None else sessions
-    return dict(C=C, D=D, rU=rU, rV=rV, jfa=jfa, w=w, m=m, v=v, U=U, V=V, Dd=Dd, sts=[rand_stat(rng, C, D, m, v) for _ in range(ns)],
-                route=pick_route(rng), np_ints=bool(rng.random() < 0.3), layout=["C", "C", "F", "strided"][int(rng.integers(0, 4))])
+    sts = [rand_stat(rng, C, D, m, v) for _ in range(ns)]
+    if ns >= 2 and sessions is None and rng.random() < 0.2:
+        k0 = int(rng.integers(0, ns - 1))
+        sts[k0] = dict(n=np.zeros(C), f=np.zeros((C, D)), t=0)  # a recording of which no frame was kept
+    return dict(C=C, D=D, rU=rU, rV=rV, jfa=jfa, w=w, m=m, v=v, U=U, V=V, Dd=Dd, sts=sts,
+                int_subspaces=int_sub, ubm_layout="F" if rng.random() < 0.2 else "C", route=pick_route(rng), np_ints=bool(rng.random() < 0.3), layout=["C", "C", "F", "strided"][int(rng.integers(0, 4))])
 
 
 def rand_stat(rng, C, D, m, v, zero=False):
@@ -87,11 +100,16 @@ def mk_machine(sc, enroll_iterations=1, em_iterations=1):
     if sc.get("int_subspaces"):  # integer-valued U and V handed over as integer-typed arrays (a legal way to set them)
         U = U.astype(np.int64) if np.all(U == np.rint(U)) else U
         V = V.astype(np.int64) if np.all(V == np.rint(V)) else V
+        Dd = Dd.astype(np.int64) if np.all(Dd == np.rint(Dd)) else Dd
     other_ubm = route in ("reuse_all", "reuse_ubm")
     other_sub = route in ("reuse_all", "reuse_subspaces")
     m0 = m + rng.normal(size=m.shape) if other_ubm else m
     v0 = v * rng.uniform(0.3, 3.0, size=v.shape) if other_ubm else v
+    # the UBM's parameter arrays in C order or (e.g. assigned as `table.T`) in Fortran order: the same values either way
+    lay = np.asfortranarray if sc.get("ubm_layout") == "F" else (lambda a: a)
     ubm = gen.mk_gmm(w, m0, v0)
+    if sc.get("ubm_layout") == "F":
+        ubm.means, ubm.variances = lay(m0), lay(v0)
     if sc["jfa"]:
         mach = JFAMachine(sc["rU"], sc["rV"], ubm=ubm, enroll_iterations=enroll_iterations, em_iterations=em_iterations)
         mach.V = V + rng.normal(size=V.shape) if other_sub else V
@@ -102,8 +120,8 @@ def mk_machine(sc, enroll_iterations=1, em_iterations=1):
     if route != "fresh":
         _warmup(mach, sc, rng)
         if other_ubm:
-            mach.ubm.means = m
-            mach.ubm.variances = v
+            mach.ubm.means = lay(m)
+            mach.ubm.variances = lay(v)
         if other_sub:
             if sc["jfa"]:
                 mach.V = V
